@@ -35,6 +35,11 @@ pub trait Val: Clone + 'static {
     /// "greatest of the universe" implies "top of the type". When false, only the sound direction
     /// `is_top(x) => x is greatest in the universe` is judged.
     const TOP_IN_U: bool;
+    /// True iff "least value of the enumerated universe" implies "bottom of the type": the
+    /// universe contains the type's bottom. False for fixed-size representations that cannot
+    /// express the empty collection (ArraySet<_,N>=1>, SingletonSet, ...) and for `Conflict` (no
+    /// bottom at all). When false only the sound direction `is_bot(x) => x is least` is judged.
+    const BOT_IN_U: bool = true;
     fn tname() -> String;
     fn uni(p: P) -> Vec<Self>;
     fn alpha(&self) -> M;
@@ -144,6 +149,8 @@ impl Key for String {
 // set backends
 
 pub trait SetB: Clone + 'static {
+    /// the representation can express the empty set
+    const HAS_EMPTY: bool = true;
     fn bname() -> String;
     fn all(p: P) -> Vec<Self>;
     /// Elements in representation order (duplicates preserved).
@@ -215,6 +222,7 @@ impl SetB for Vec<u8> {
     }
 }
 impl<const N: usize> SetB for ArraySet<u8, N> {
+    const HAS_EMPTY: bool = N == 0;
     fn bname() -> String {
         format!("ArraySet<u8,{N}>")
     }
@@ -250,6 +258,7 @@ impl SetB for OptionSet<u8> {
     }
 }
 impl SetB for SingletonSet<u8> {
+    const HAS_EMPTY: bool = false;
     fn bname() -> String {
         "SingletonSet<u8>".into()
     }
@@ -320,6 +329,7 @@ impl SetB for FstTombstoneSet<String> {
 
 impl<S: SetB> Val for SetUnion<S> {
     const TOP_IN_U: bool = false;
+    const BOT_IN_U: bool = S::HAS_EMPTY;
     fn tname() -> String {
         format!("SetUnion<{}>", S::bname())
     }
@@ -339,6 +349,8 @@ impl<S: SetB> Val for SetUnion<S> {
 
 pub trait MapB: Clone + 'static {
     type V: Val;
+    /// the representation can express the empty map
+    const HAS_EMPTY: bool = true;
     fn bname() -> String;
     fn all(p: P) -> Vec<Self>;
     /// Entries in representation order.
@@ -444,6 +456,7 @@ impl<V: Val> MapB for VecMap<u8, V> {
 }
 impl<V: Val, const N: usize> MapB for ArrayMap<u8, V, N> {
     type V = V;
+    const HAS_EMPTY: bool = N == 0;
     fn bname() -> String {
         format!("ArrayMap<u8,{},{N}>", V::tname())
     }
@@ -498,6 +511,7 @@ impl<V: Val> MapB for OptionMap<u8, V> {
 }
 impl<V: Val> MapB for SingletonMap<u8, V> {
     type V = V;
+    const HAS_EMPTY: bool = false;
     fn bname() -> String {
         format!("SingletonMap<u8,{}>", V::tname())
     }
@@ -542,6 +556,8 @@ impl<V: Val> MapB for EmptyMap<u8, V> {
 
 impl<B: MapB> Val for MapUnion<B> {
     const TOP_IN_U: bool = false;
+    // a map whose values are all bottom is bottom
+    const BOT_IN_U: bool = B::HAS_EMPTY || <B::V as Val>::BOT_IN_U;
     fn tname() -> String {
         format!("MapUnion<{}>", B::bname())
     }
@@ -671,6 +687,7 @@ impl Val for Min<()> {
 
 impl Val for Conflict<u8> {
     const TOP_IN_U: bool = true;
+    const BOT_IN_U: bool = false;
     fn tname() -> String {
         "Conflict<u8>".into()
     }
@@ -754,6 +771,7 @@ impl<X: Val> Val for WithBot<X> {
 }
 impl<X: Val> Val for WithTop<X> {
     const TOP_IN_U: bool = true;
+    const BOT_IN_U: bool = X::BOT_IN_U;
     fn tname() -> String {
         format!("WithTop<{}>", X::tname())
     }
@@ -775,6 +793,7 @@ impl<X: Val> Val for WithTop<X> {
 }
 impl<A: Val, B: Val> Val for Pair<A, B> {
     const TOP_IN_U: bool = A::TOP_IN_U && B::TOP_IN_U;
+    const BOT_IN_U: bool = A::BOT_IN_U && B::BOT_IN_U;
     fn tname() -> String {
         format!("Pair<{},{}>", A::tname(), B::tname())
     }
@@ -792,6 +811,7 @@ impl<A: Val, B: Val> Val for Pair<A, B> {
 /// Only instantiated with totally ordered keys (`Max<_>`/`Min<_>`), as the property states.
 impl<A: Val, B: Val> Val for DomPair<A, B> {
     const TOP_IN_U: bool = A::TOP_IN_U && B::TOP_IN_U;
+    const BOT_IN_U: bool = A::BOT_IN_U && B::BOT_IN_U;
     fn tname() -> String {
         format!("DomPair<{},{}>", A::tname(), B::tname())
     }
@@ -1011,6 +1031,7 @@ impl<B: UfB> Val for UnionFind<B> {
 
 impl<S: SetB, T: SetB> Val for SetUnionWithTombstones<S, T> {
     const TOP_IN_U: bool = false;
+    const BOT_IN_U: bool = S::HAS_EMPTY && T::HAS_EMPTY;
     fn tname() -> String {
         format!("SetUnionWithTombstones<{},{}>", S::bname(), T::bname())
     }
@@ -1038,6 +1059,7 @@ impl<S: SetB, T: SetB> Val for SetUnionWithTombstones<S, T> {
 }
 impl<B: MapB, T: SetB> Val for MapUnionWithTombstones<B, T> {
     const TOP_IN_U: bool = false;
+    const BOT_IN_U: bool = (B::HAS_EMPTY || <B::V as Val>::BOT_IN_U) && T::HAS_EMPTY;
     fn tname() -> String {
         format!("MapUnionWithTombstones<{},{}>", B::bname(), T::bname())
     }
@@ -1154,6 +1176,7 @@ pub struct DG<A, B> {
 }
 impl<A: Val, B: Val> Val for DG<A, B> {
     const TOP_IN_U: bool = A::TOP_IN_U && B::TOP_IN_U;
+    const BOT_IN_U: bool = A::BOT_IN_U && B::BOT_IN_U;
     fn tname() -> String {
         format!("DG<{},{}>", A::tname(), B::tname())
     }
